@@ -528,7 +528,7 @@ where
 			&parent_key_id,
 		)?;
 		slate.amount = total;
-		slate.fee_fields = fee.try_into().unwrap();
+		slate.fee_fields = fee.try_into()?;
 		return Ok(slate);
 	}
 
